@@ -4,6 +4,7 @@
  *  app write DIR OP...      library writer; between the markers:
  *        p:<field>:<n>      gd_putdata of the next n SAMPLES of <field> (sample i of a field
  *                           has the value base+i, base = 1000 for a, 0 for b (mod 256))
+ *        P:<field>:<n>      the same at the I/O pointer (GD_HERE);  n = the writer polls gd_nframes, e = gd_eof of a
  *        h                  heartbeat: gd_put_constant("hb", ++beat) (metadata that changes between flushes)
  *        s | f | m | c      gd_sync(NULL) | gd_flush(NULL) | gd_metaflush | gd_raw_close(NULL)
  *  app rawwrite FILE ESIZE BASE FIRST NSAMPLES CHUNK...
@@ -25,7 +26,7 @@ static void mark(const char *m) { access(m, F_OK); }
 static void pass(DIRFILE *D, const char *tag)
 {
   off64_t nf;
-  int e0 = gd_error(D);
+  int e0 = (tag[0] == 'f') ? gd_error(D) : 0;   /* only a handle that was just opened can carry an open error */
   if (e0) { printf("%s openerr %d\n", tag, e0); return; }
   nf = gd_nframes64(D);
   printf("%s nf %" PRId64 " e %d", tag, (int64_t)nf, gd_error(D));
@@ -129,6 +130,25 @@ int main(int argc, char **argv)
         *nx += w;
         r = gd_error(D);
         free(v);
+      } else if (op[0] == 'P') {
+        /* append n samples at the I/O pointer (GD_HERE): the library decides where they go */
+        char f = op[2];
+        size_t n = (size_t)atoi(op + 4), k;
+        int32_t *v = malloc(sizeof(int32_t) * (n + 1));
+        off64_t *nx = (f == 'a') ? &next_a : &next_b;
+        for (k = 0; k < n; k++) v[k] = (f == 'a') ? (int32_t)(1000 + *nx + k) : (int32_t)((*nx + k) & 0xff);
+        size_t w = gd_putdata64(D, f == 'a' ? "a" : "b", GD_HERE, 0, 0, n, GD_INT32, v);
+        *nx += w;
+        r = gd_error(D);
+        free(v);
+      } else if (op[0] == 'n') {
+        /* the writer polls its own frame count / end of field between appends */
+        off64_t nf = gd_nframes64(D);
+        r = gd_error(D);
+        (void)nf;
+      } else if (op[0] == 'e') {
+        gd_eof64(D, "a");
+        r = gd_error(D);
       } else if (op[0] == 'h') {
         static uint32_t beat = 0;
         beat++;
